@@ -58,7 +58,8 @@ func getArgumentValues(
 			value = tmpValue.Value
 		}
 		if tmp = valueFromAST(value, argDef.Type, variableValues); isNullish(tmp) {
-			tmp = argDef.DefaultValue
+			// a copy: resolvers may mutate what they receive
+			tmp = copyArgValue(argDef.DefaultValue)
 		}
 		if !isNullish(tmp) {
 			results[argDef.PrivateName] = tmp
@@ -158,7 +159,7 @@ func coerceValue(ttype Input, value interface{}) interface{} {
 		for name, field := range ttype.Fields() {
 			fieldValue := coerceValue(field.Type, valueMap[name])
 			if isNullish(fieldValue) {
-				fieldValue = field.DefaultValue
+				fieldValue = copyArgValue(field.DefaultValue)
 			}
 			if !isNullish(fieldValue) {
 				obj[name] = fieldValue
@@ -400,7 +401,7 @@ func valueFromAST(valueAST ast.Value, ttype Input, variables map[string]interfac
 				value = valueFromAST(of.Value, field.Type, variables)
 			}
 			if isNullish(value) {
-				value = field.DefaultValue
+				value = copyArgValue(field.DefaultValue)
 			}
 			if !isNullish(value) {
 				obj[name] = value
